@@ -245,15 +245,18 @@ impl LibraryPath {
         }
         validate_path_len(source.as_ref())?;
 
-        // special handling of the first component as it may contain non-alphanumeric characters
-        let (path, mut num_components) = if source.as_ref().starts_with(Self::KERNEL_PATH) {
-            let split_at = Self::KERNEL_PATH.len() + Self::PATH_DELIM.len();
-            (source.as_ref().split_at(split_at).1, 1)
-        } else if source.as_ref().starts_with(Self::EXEC_PATH) {
-            let split_at = Self::EXEC_PATH.len() + Self::PATH_DELIM.len();
-            (source.as_ref().split_at(split_at).1, 1)
-        } else {
-            (source.as_ref(), 0)
+        // special handling of the first component as it may contain non-alphanumeric characters;
+        // such a component is either the whole path or is followed by the path delimiter
+        let special_prefix = [Self::KERNEL_PATH, Self::EXEC_PATH]
+            .into_iter()
+            .find_map(|prefix| source.as_ref().strip_prefix(prefix));
+        let (path, mut num_components) = match special_prefix {
+            Some("") => return Ok(1),
+            Some(rest) => match rest.strip_prefix(Self::PATH_DELIM) {
+                Some(path) => (path, 1),
+                None => return Err(PathError::component_invalid_char(source.as_ref())),
+            },
+            None => (source.as_ref(), 0),
         };
 
         // count the number of components in the path and make sure each component is valid
